@@ -133,7 +133,7 @@ def run(ctx):
                         if base_ok and rng_ok and fn.dominates(b, cb) and fn.dominates(cb, sb) and srecv == {(0, ())}:
                             k_ok = True
             ctx.ob("rekey-dataflow", "new-key", k_ok, "new key = first %d bytes of the ciphertext, installed with self.set()" % K if k_ok else "REKEY key derivation differs from the specification (%s)" % why, where(fn), cfg)
-        ctx.floor("rekey-not-overridden", nonce.check_rekey_not_overridden(ctx, cfg), 2, cfg)
+        ctx.floor("rekey-not-overridden", nonce.check_rekey_not_overridden(ctx, cfg), 1, cfg)
         # write sets
         k = 0
         for name in ("cipherstate::CipherState::rekey", "cipherstate::CipherState::rekey_manually",
